@@ -16,6 +16,8 @@ ASSUMPTIONS = [
     'restore clause, reference value: the "previous value" for the first scope of a task is what the code that created the task '
     'observed at that moment (contextvars: a task starts with a copy of its creator\'s context); the monitors take it from the '
     'implementation\'s own samples at the creation point (on_create hook, call_soon site), not from the model',
+    'inline-await stream (harness/c18_inline.py, impl-only, no model): a child awaited in the parent\'s own task, its step left '
+    'normally / by an Exception / by a BaseException / by task.cancel() at every await point, absorbed by the parent',
     'generated programs are finite (a class only launches / executes later classes; callbacks only execute the last, leaf class); '
     'launch() and out() are only called from steps (a callback may run after its process was closed)',
     'the hook clause of the property is a recorded finding (F14): lifecycle hooks fired by transition_to / the constructor / close() '
@@ -215,6 +217,11 @@ def run(ctx):
     if capped_scn:
         ctx.note(f'scenarios whose interleavings exceeded the cap (explored partially + random schedules): {capped_scn}')
     samples = [r['sample'] for r in results[:3] if r.get('sample')]
+    # impl-only stream: a child awaited inline (same task) whose step is left through a BaseException / a cancellation
+    from harness import c18_inline
+    inline_stats, inline_fails = c18_inline.run_stream(ctx.thorough)
+    fl = inline_fails[:5] + fl
+    tot['n_runs'] += inline_stats['runs']
     return dict(
         evaluations=tot['n_runs'], distinct_nontrivial=len(digests),
         rule='one evaluation = one complete run of a scenario (generated Process classes) under one schedule on the real code, '
@@ -227,7 +234,7 @@ def run(ctx):
                         scenarios_capped=len(capped_scn), nontrivial_runs=tot['nontrivial'],
                         hooks_outside_scope=sorted(hooks_outside), hooks_inside_scope=sorted(hooks_inside),
                         max_nested_execute_depth=mx['max_nest'], max_tasks=mx['max_tasks'], max_processes=mx['max_procs'],
-                        divergent_runs=tot['n_div']),
+                        divergent_runs=tot['n_div'], inline_await_stream=inline_stats),
     )
 
 
@@ -242,6 +249,11 @@ def small_random(rng):
 
 def replay(ctx, failure):
     case = failure['case']
+    if case.get('inline'):
+        from harness import c18_inline
+        obs, states = c18_inline.run_family(case['depth'], case['awaits'], case['ending'], case['cancel_at'])
+        return dict(observations=[list(o) for o in obs], states=states,
+                    failures=['c18-scope-leaked-after-baseexception'] if c18_inline.violations(obs) else [])
     scn = json.loads(json.dumps(case['scenario']))
     (res,), r = job(('replay', (scn, case['schedule']), ctx.model.available))
     common.ensure_repo_on_path()
